@@ -61,7 +61,9 @@ def named(which="quick"):
 def random_cfg(rng, html_only=True, directives=True):
     k = rng.randint(0, len(PLUGINS))
     pl = rng.sample(PLUGINS, k)
-    return C("rand", escape=rng.random() < 0.6, hard_wrap=rng.random() < 0.3, plugins=pl,
-             directives=(rng.choice([None, None, "fenced", "rst"]) if directives else None),
-             renderer="html" if html_only else rng.choice(["html", "html", "ast"]),
-             **({"toc_hook": True} if rng.random() < 0.2 else {}))
+    c = C("rand", escape=rng.random() < 0.6, hard_wrap=rng.random() < 0.3, plugins=pl,
+          directives=(rng.choice([None, None, "fenced", "rst"]) if directives else None),
+          renderer="html" if html_only else rng.choice(["html", "html", "ast"]))
+    if c["renderer"] == "html" and rng.random() < 0.2:
+        c["toc_hook"] = True        # the TOC hook renders heading text with the converter's renderer: it needs one
+    return c
